@@ -3,7 +3,7 @@
    used for the core fragment.  Cnl/Core.v: the core fragment F0, its compile model (byte-exact on F0), grounding, and the reading. *)
 Require Import Coq.Strings.String Coq.Lists.List Coq.Bool.Bool.
 Require Import Coq.ZArith.ZArith Lia.
-Require Import Cnl2aspV.Asp.Ground Cnl2aspV.Cnl.Core Cnl2aspV.Cnl.CoreProofs Cnl2aspV.Cnl.CoreOneOf Cnl2aspV.Cnl.CoreDef Cnl2aspV.Cnl.CoreChoice Cnl2aspV.Cnl.CoreChoiceEach Cnl2aspV.Cnl.CoreWhere Cnl2aspV.Cnl.Comparison Cnl2aspV.Cnl.CoreProgram.
+Require Import Cnl2aspV.Asp.Ground Cnl2aspV.Cnl.Core Cnl2aspV.Cnl.CoreProofs Cnl2aspV.Cnl.CoreOneOf Cnl2aspV.Cnl.CoreDef Cnl2aspV.Cnl.CoreChoice Cnl2aspV.Cnl.CoreChoiceEach Cnl2aspV.Cnl.CoreWhere Cnl2aspV.Cnl.Comparison Cnl2aspV.Cnl.CoreProgram Cnl2aspV.Cnl.CoreSupport Cnl2aspV.Cnl.CoreStable.
 Import ListNotations.
 
 (* for hierarchical ground programs (no predicate depends on itself): I is a stable model iff it satisfies the constraints and
@@ -267,4 +267,85 @@ Proof.
   intros x [<-|[<-|[<-|[<-|[]]]]]; cbn [covered]; unfold declared, concept_names; cbn [map concepts c_name In];
     repeat split; try discriminate; try (vm_compute; tauto); auto.
   vm_compute. repeat constructor; cbn; intuition discriminate.
+Qed.
+
+(* ... and the closedness part, with no hypothesis at all: the ground program of ANY core-fragment specification is closed in I
+   exactly when I holds every declared value of every concept and the rule instances of every sentence are closed in I; without
+   derived definitions that is: exactly when I holds every declared value (the first clause of the reading, r_domains).  So for
+   specifications of named-instance, single-clause and choice sentences two of the three conjuncts of C01_hierarchical_stable
+   (bounds, closed) are proved equal to the reading's clauses; the third (every atom of I is supported, i.e. I holds nothing but
+   declared values and admissible chosen atoms) is decided per specification by the exhaustive comparison. *)
+Theorem C01_program_closed_partial :
+  forall (s : spec) (U : list string) (I : interp),
+    closedb I (flat_map (ground_rule U) (compile s)) =
+    r_domains s I && forallb (fun x => closedb I (flat_map (ground_rule U) (compile_sentence s x))) (sentences s).
+Proof. exact program_closed. Qed.
+Print Assumptions C01_program_closed_partial.
+
+Theorem C01_program_closed_without_definitions :
+  forall (s : spec) (I : interp),
+    (forall x, In x (sentences s) -> no_definition x) ->
+    (closed (ground s) I <-> r_domains s I = true).
+Proof.
+  intros s I H. rewrite <- closedb_spec. unfold ground. now rewrite (program_closed_no_definitions s (universe s) I H).
+Qed.
+Print Assumptions C01_program_closed_without_definitions.
+
+(* ... the supportedness part: every atom of I is supported by the ground program exactly when it is a declared value or an
+   admissible instance of a chosen relation (the second clause of the reading), for every atom ... *)
+Theorem C01_program_supported_partial :
+  forall (s : spec) (U : list string) (I : interp),
+    (forall n, declared s n -> forall x, In x U -> holds I (atom_text n [x]) = Util.mem_string x (dom_of s n)) ->
+    (forall n, incl (dom_of s n) U) ->
+    (forall x, In x (sentences s) -> covered s x /\ no_definition x) ->
+    forall a, supported_atom I (flat_map (ground_rule U) (compile s)) a = admissible s a.
+Proof. exact program_supported. Qed.
+Print Assumptions C01_program_supported_partial.
+
+(* ... and all together: THE PROPERTY for specifications of concepts, choice sentences (every cardinality phrase, with or without
+   for-each), single-clause constraints (both polarities, with or without a 'where' comparison) and named-instance constraints,
+   any number of each: an interpretation is an answer set of the ground compiled program -- stable in the sense of the reduct,
+   Asp/Ground.v -- if and only if it is a model of the reading.  Hypotheses: the sentences are of the covered kinds with their
+   side conditions (different variables, comparison phrases of the language, operands among the labels, duplicate-free object
+   domains); no instance of a chosen relation over the universe has the text of a concept atom (`separated`, decidable: it is
+   what makes the program hierarchical, proved here); and I holds exactly the declared values of the declared concepts
+   (both sides force that for an I made of well-formed atoms; it is assumed here, which is why this is still `_partial`,
+   together with: derived definitions, multi-clause bodies and 'is one of' are outside `covered`).  The ground program is the
+   grounding of the compile model that is tied byte-exactly to the implementation on every run; grounding itself is the
+   model's (Cnl/Core.v: ground_rule), validated against clingo on every generated specification. *)
+Theorem C01_answer_sets_are_the_models_partial :
+  forall (s : spec) (I : interp),
+    separated s (universe s) = true ->
+    (forall x, In x (sentences s) -> covered s x /\ no_definition x) ->
+    (forall n, declared s n -> forall x, In x (universe s) -> holds I (atom_text n [x]) = Util.mem_string x (dom_of s n)) ->
+    (stable (ground s) I <-> reading s I = true).
+Proof. intros s I Hsep Hcov Hdom. exact (stable_iff_reading s Hsep Hcov I Hdom). Qed.
+Print Assumptions C01_answer_sets_are_the_models_partial.
+
+(* non-vacuity: two choice sentences (one with for-each), a constraint with 'where', a named-instance requirement; the
+   specification is separated and covered, an interpretation meets the hypothesis and is a model; dropping the required instance
+   or adding an inadmissible atom is no model *)
+Example C01_answer_sets_example :
+  let host := {| v_word := "host"; v_copula := false; v_prep := None |} in
+  let stock := {| v_word := "stock"; v_copula := false; v_prep := None |} in
+  let cl := {| cl_subj := "room"; cl_slabel := "R"; cl_neg := false; cl_verb := host; cl_obj := "shelf"; cl_olabel := "S" |} in
+  let s := {| concepts := [{| c_name := "room"; c_key := "id"; c_dom := DRange 1 2 |}; {| c_name := "shelf"; c_key := "id"; c_dom := DRange 1 2 |};
+                           {| c_name := "day"; c_key := "id"; c_dom := DEnum ["mon"] |}];
+              sentences := [SChoice {| ch_subj := "room"; ch_slabel := None; ch_verb := host; ch_card := CAtMost 1; ch_obj := "shelf";
+                                       ch_olabel := None; ch_foreach := None |};
+                            SChoice {| ch_subj := "room"; ch_slabel := None; ch_verb := stock; ch_card := CNone; ch_obj := "shelf";
+                                       ch_olabel := None; ch_foreach := Some "day" |};
+                            SCons false [] [cl] (Some {| w_left := "R"; w_phrase := "greater than"; w_right := "S" |});
+                            SThere true false host "1" "2"] |} in
+  let D := ["room(1)"; "room(2)"; "shelf(1)"; "shelf(2)"; "day(""mon"")"]%string in
+  let I := ("host(1,2)" :: "stock(""mon"",2,1)" :: D)%string in
+  separated s (universe s) = true /\
+  (forall x, In x (sentences s) -> covered s x /\ no_definition x) /\
+  forallb (fun n => forallb (fun x => Bool.eqb (holds I (atom_text n [x])) (Util.mem_string x (dom_of s n))) (universe s)) (concept_names s) = true /\
+  reading s I = true /\ reading s D = false /\ reading s ("host(2,1)" :: I)%string = false /\ reading s ("ghost(1)" :: I)%string = false.
+Proof.
+  cbv zeta. split; [vm_compute; reflexivity|]. split; [|vm_compute; repeat split].
+  intros x [<-|[<-|[<-|[<-|[]]]]]; (split; [|exact Logic.I]); cbn [covered]; unfold declared, concept_names; cbn [map concepts c_name In ch_foreach];
+    repeat split; try discriminate; try (vm_compute; tauto); auto;
+    try (vm_compute; repeat constructor; cbn; intuition discriminate).
 Qed.
